@@ -172,6 +172,11 @@ func wfSerializers(r *rand.Rand) []serializer {
 		ss = append(ss, serializer{"Exchange.Write " + string(ver), func(w io.Writer) (int64, bool, error) { return 0, false, e.Write(w) }})
 		ss = append(ss, serializer{"DumpExchangeHeaders " + string(ver), func(w io.Writer) (int64, bool, error) { return 0, false, e.DumpExchangeHeaders(w) }})
 		ss = append(ss, serializer{"DumpSignedMessage " + string(ver), func(w io.Writer) (int64, bool, error) { return 0, false, e.DumpSignedMessage(w, signer) }})
+		// the degenerate artefact of the family: no payload bytes at all (not even an MI header), no request headers
+		sp0 := baseSpec(r, ver)
+		sp0.payload, sp0.skipMI, sp0.reqh = nil, true, http.Header{}
+		e0 := buildSigned(sp0, kc).e
+		ss = append(ss, serializer{"Exchange.Write bodiless " + string(ver), func(w io.Writer) (int64, bool, error) { return 0, false, e0.Write(w) }})
 	}
 	// cert chain
 	s3 := &bsigner{"s3", []*keyCert{newKeyCert("p256", nil, 0), newKeyCert("p384", nil, 40)}, nil}
